@@ -195,8 +195,6 @@ def fill_containers(det, combo, salt=0.0):
     if ch == "array":
         det.charge.add_charge_array(v * 3.0)
     elif ch == "clusters":
-        geo = det.geometry
-        n = 3
         det.charge.add_charge(
             particle_type="e",
             particles_per_cluster=np.array([3.0, 4.0, 5.0]) + salt + _seed() % 5,
